@@ -381,8 +381,8 @@ def streams(ctx: lib.Ctx) -> None:
     cases: List[Tuple[str, H.Spec, dict]] = []   # (stream, spec, meta)
     for label, spec in corpus():
         cases.append(("corpus", spec, {"label": label}))
-    n_valid = ctx.n(150, 6000)
-    n_mut = ctx.n(120, 5000)
+    n_valid = ctx.n(150, 2500)
+    n_mut = ctx.n(120, 2000)
     for _ in range(n_valid):
         spec, meta = H.gen_valid(rng, max_n=rng.choice([4, 6, 9, 12]))
         cases.append(("valid", spec, meta))
